@@ -105,7 +105,12 @@ def gen_cases(rng, tier):
     # the same histories under jax.jit: every non-stationary case, and the small scopes of the other kinds
     jitted = [{**c, "jit": True} for c in cases
               if c["kind"] == "nonstatio" or c["n"] <= (4 if tier == "quick" else 6)]
-    return cases + jitted
+    # many active points in the library's default precision: a weighted shuffle written with powers of uniforms
+    # underflows in float32 from a few dozen active points on (zero-probability slots must still come last)
+    big = [{"kind": kind, "n": ns, "b": b, "extra": 6, "update_every": 1, "selected": 2, "requests": _req(ns, b),
+            "seed": rng.randrange(1 << 30), "jit": True}
+           for kind in ("ode_rar", "statio_rar") for (ns, b) in ((40, 8), (64, 16))]
+    return cases + jitted + big
 
 
 def shrink_candidates(case):
